@@ -74,6 +74,10 @@ def call(op: str, a: dict) -> dict:
                 d[X.data == v.max()] = np.inf
                 d[X.data == v.min()] = -np.inf
                 X = ttb.tensor(d)
+        if a.get("dtype") == "hair" and op == "issymmetric":
+            # another injective relabelling: value v -> 1 + v * 2^-30 (exact in double precision), so entries that differ
+            # at all differ by a hair (about 1e-9 relative) - the symmetry test is exact, not a closeness test
+            X = ttb.tensor(1.0 + X.data.astype(float) * 2.0 ** -30)
         unscale = 1.0
         if a.get("dtype") == "int8":
             # symmetrisation is linear and the symmetry question is scale free: the same tensor times 32, stored in 8 bits
@@ -151,7 +155,7 @@ def main(tier: str) -> int:
     stimuli = []
     for s_ in r.json:
         # presentation: the same abstract tensor held with float and with integer dtype
-        for dt in ("float", "int", "int8", "bool") + (("inf",) if s_["op"] == "issymmetric" else ()):
+        for dt in ("float", "int", "int8", "bool") + (("inf", "hair") if s_["op"] == "issymmetric" else ()):
             stimuli.append({"op": s_["op"], "a": dict(s_["a"], dtype=dt)})
     # Kruskal symmetrisation: observation contract on seeded integer instances
     for n in (2, 3):
